@@ -189,7 +189,7 @@ def finish(mod, prop, tier, seed, recs, statuses, notes, t_start, replay, quiet,
     inconc = []
     fl = mod.floors(tier) if hasattr(mod, "floors") else {}
     if not replay:
-        sc = max(0.05, min(1.0, share))
+        sc = max(0.05, min(1.0, share)) * (1.0 if share >= 0.999 else 0.9)
         if decided < fl.get("min_decided", 1) * sc:
             inconc.append("only %d decided cases (floor %d)" % (decided, fl.get("min_decided", 1) * sc))
         for k, v in (fl.get("counters") or {}).items():
